@@ -85,3 +85,8 @@ package xsub
 //@ func (*socket).SetOption
 //@   ensures (name == protocol.OptionReadQLen) && isnil(result) ==> evcount("closed") == 1
 //@   ensures !isnil(result) ==> evcount("closed") == 0
+// ---- generated Info contracts (tools/gen_info_contracts.py) ----
+//@ func (*socket).Info
+//@   ensures result.Self == 33 && result.Peer == 32 && result.SelfName == "sub" && result.PeerName == "pub"
+//@
+// ---- end generated Info contracts ----
